@@ -81,7 +81,10 @@ func c07Bases(a *refsem.Arch) []*seccomp.Policy {
 	return append(bases, long)
 }
 
-type nameSlot struct{ g, i int; cond bool }
+type nameSlot struct {
+	g, i int
+	cond bool
+}
 type condSlot struct{ g, e, c int }
 
 func nameSlots(p *seccomp.Policy) (s []nameSlot) {
@@ -244,7 +247,9 @@ func c07Defects(a *refsem.Arch, base *seccomp.Policy, limitSlots int) []defect {
 		}
 		for _, op := range []string{"", "equal", "Foo", "Equal ", "EQUAL", "Equals", "BitsSet\x00", "==", "MaskedEqual"} {
 			op := op
-			ds = append(ds, defect{fmt.Sprintf("D8 operation %q at %+v", op, s), func(p *seccomp.Policy) { p.Syscalls[s.g].NamesWithCondtions[s.e].Conditions[s.c].Operation = seccomp.Operation(op) }})
+			ds = append(ds, defect{fmt.Sprintf("D8 operation %q at %+v", op, s), func(p *seccomp.Policy) {
+				p.Syscalls[s.g].NamesWithCondtions[s.e].Conditions[s.c].Operation = seccomp.Operation(op)
+			}})
 		}
 	}
 	return ds
@@ -352,6 +357,10 @@ func checkC07(tier, replay string) int {
 		}
 		_ = desc
 		r.one("C07/"+j.label, j.a, p, engine.Options{SkipDecision: true})
+		if j.d1 != nil && j.d2 == nil {
+			// the same defect injected into a policy value that was assembled successfully before (the defect-free base)
+			r.one("C07/"+j.label+"/after-valid-assemble", j.a, p, engine.Options{SkipDecision: true, Prior: clonePolicy(j.base)})
+		}
 	})
 	// D7: architectures without tables, through the hook and through GetInfo
 	for _, info := range tablelessInfos {
@@ -388,7 +397,7 @@ func checkC07(tier, replay string) int {
 	}
 	// acceptance obligations: every defect-free policy of the small scopes must compile
 	acceptanceScopes(r, tier)
-	r.finish("8 defect kinds (unknown default action, no groups, unknown name in 10 spellings, duplicate name at every ordered pair / insertion point, conditional+unconditional at every pairing, argument index > 5, unimplemented operation in 9 spellings, table-less architecture) injected at every position of 9 valid base policies (incl. leading, trailing and only groups whose action equals the default) on 4 architectures, plus pairs of defects; oracle: error and nil program and no panic; every defect-free policy (bases, varied valid forms, scopes S1<=2 groups and S3 small) must be accepted; accepted policies outside both sets (empty condition list) must still decide like the reference, i.e. never drop a rule; non-trivial = accepted policies with >= 2 decisions (the rejected ones are counted under counters.defective_policies)")
+	r.finish("8 defect kinds (unknown default action, no groups, unknown name in 10 spellings, duplicate name at every ordered pair / insertion point, conditional+unconditional at every pairing, argument index > 5, unimplemented operation in 9 spellings, table-less architecture) injected at every position of 9 valid base policies (incl. leading, trailing and only groups whose action equals the default) on 4 architectures, plus pairs of defects, each single defect also injected into a policy value that had been assembled successfully before; oracle: error and nil program and no panic; every defect-free policy (bases, varied valid forms, scopes S1<=2 groups and S3 small) must be accepted; accepted policies outside both sets (empty condition list) must still decide like the reference, i.e. never drop a rule; non-trivial = accepted policies with >= 2 decisions (the rejected ones are counted under counters.defective_policies)")
 	ctx.Cov["distinct_nontrivial"] = r.nontriv + ctx.Counter("defective_policies")
 	ctx.Assumptions = []string{"refsem.Valid encodes the defect list of the statement; policies with an empty condition list are in neither set and only required to be compiled faithfully if accepted"}
 	return ctx.Finish()
@@ -424,6 +433,25 @@ func acceptanceScopes(r *compileRun, tier string) {
 		}
 	}
 	x := refsem.ArchByName("x86_64")
+	// the acceptance boundary: defect-free policies compiling to exactly L instructions, L = 4088..4096 (and beyond, where
+	// either verdict is fine): 20 groups of 200 names (202 instructions each) + x86_64 prologue (6) + one group of L-4048 names
+	{
+		all := x.SortedNames()
+		for L := 4088; L <= 4100; L++ {
+			p := &seccomp.Policy{DefaultAction: seccomp.ActionErrno}
+			for g := 0; g < 20; g++ {
+				p.Syscalls = append(p.Syscalls, seccomp.SyscallGroup{Action: seccomp.ActionAllow, Names: all[g : g+200 : g+200]})
+			}
+			p.Syscalls = append(p.Syscalls, seccomp.SyscallGroup{Action: seccomp.ActionLog, Names: all[100 : 100+L-4048]})
+			out := r.one(fmt.Sprintf("accept/size-%d", L), x, p, engine.Options{SkipDecision: true})
+			if out.Prog != nil && len(out.Prog) != L {
+				r.ctx.Capped(fmt.Sprintf("size-boundary construction gave %d instructions instead of %d", len(out.Prog), L))
+			}
+			if L > 4096 && !out.Accepted {
+				r.ctx.Count("oversize_policies_rejected_by_the_compiler", 1)
+			}
+		}
+	}
 	ops := []seccomp.Operation{seccomp.Equal, seccomp.BitsSet}
 	if tier == "thorough" {
 		ops = allOps
